@@ -39,15 +39,44 @@ Theorem C17_env_sound_file : forall f cc pc tokens i fl,
     nth_error tokens i = Some tok /\ realpath f (pjoin (cwd_of cc pc) tok) = Some q /\ link_free f q /\ all_good q /\
     lstat f q = Some (NFile sz (Some t)) /\ suffix_ok (last q []) = true /\ (sz <= 100000)%N /\ visit true false t = [] /\
     py_syspath0 f (cwd_of cc pc) tokens = (if safe_path tokens i then SP_none else SP_dir (removelast q)) /\
-    forall r, In r (roots t) -> shadowed f (removelast q) r = false.
+    (forall r, In r (roots t) -> shadowed f (removelast q) r = false) /\
+    local_shadow f (removelast q) = false.
 Proof. exact env_sound_file. Qed.
 Print Assumptions C17_env_sound_file.
 
 Theorem C17_env_sound_module : forall f cc pc tokens i m fl,
   classify_fs f cc pc tokens = PAllow -> py_cmdline tokens = RModule i m fl ->
-  m = $"calendar" /\ fl_inspect fl = false /\ shadowed f (path_comps (cwd_of cc pc)) $"calendar" = false.
+  m = $"calendar" /\ fl_inspect fl = false /\ shadowed f (path_comps (cwd_of cc pc)) $"calendar" = false /\
+  local_shadow f (path_comps (cwd_of cc pc)) = false.
 Proof. exact env_sound_module. Qed.
 Print Assumptions C17_env_sound_module.
+
+(* what "local_shadow = false" says (repair 7bd370f): in the directory the path resolves to, NO entry named like a
+   standard-library module (sys.stdlib_module_names) or a safe-listed root is importable - neither by an ending
+   import accepts (.py .pyc .so .pyd) nor as a directory.  With the two theorems above: nothing in py_syspath0
+   can take the place of a module the interpreter loads for the script, whichever modules those are. *)
+Theorem C17_env_no_importable_entry : forall f base q, local_shadow f base = false ->
+  walk true FUEL f [] base = Some q -> lstat f q = Some NDir ->
+  forall n, In n (dir_names f q) -> module_named n = true ->
+    (forall e, In e PY_IMPORTABLE_ENDINGS -> suffixb e n = false) /\ (mem_ch 46 n = false -> p_is_dir f (q ++ [n]) = false).
+Proof. exact local_shadow_false. Qed.
+Print Assumptions C17_env_no_importable_entry.
+
+(* The statement the code satisfied before 7bd370f - only the roots the script imports are tested, only as
+   <root>.py / <root>/ - approves while an importable standard-module name lies in sys.path[0]: re.py for
+   `import json` (transitive), json.pyc, json.<abi>.so, datetime.py for -m calendar (former findings
+   C17-env-shadow-transitive / -other-forms / -mcal-shadow; -implicit is the same with no import at all). *)
+Theorem C17_env_roots_only_legacy_refuted :
+  (classify_legacy (ex_fs_nb $"re.py") (Some $"/w") [] [$"python3"; $"x.py"] = PAllow /\
+   local_shadow (ex_fs_nb $"re.py") [$"w"] = true /\ (forall r, In r (roots ex_script) -> shadowed (ex_fs_nb $"re.py") [$"w"] r = false)) /\
+  (classify_legacy (ex_fs_nb $"json.pyc") (Some $"/w") [] [$"python3"; $"x.py"] = PAllow /\
+   local_shadow (ex_fs_nb $"json.pyc") [$"w"] = true) /\
+  (classify_legacy (ex_fs_nb $"json.cpython-312-x86_64-linux-gnu.so") (Some $"/w") [] [$"python3"; $"x.py"] = PAllow /\
+   local_shadow (ex_fs_nb $"json.cpython-312-x86_64-linux-gnu.so") [$"w"] = true) /\
+  (classify_legacy (ex_fs_nb $"datetime.py") (Some $"/w") [] [$"python3"; $"-m"; $"calendar"] = PAllow /\
+   local_shadow (ex_fs_nb $"datetime.py") [$"w"] = true).
+Proof. exact roots_only_is_not_enough. Qed.
+Print Assumptions C17_env_roots_only_legacy_refuted.
 
 Theorem C17_env_never_inline_code : forall f cc pc tokens,
   classify_fs f cc pc tokens = PAllow ->
@@ -56,7 +85,7 @@ Proof. exact env_never_command_or_stdin. Qed.
 Print Assumptions C17_env_never_inline_code.
 
 (* `python WORD`: the verdict is a function of the real path of WORD alone ... *)
-Theorem C17_env_script_word : forall f cc pc py s, is_dash s = false ->
+Theorem C17_env_script_word : forall f cc pc py s, is_dash s = false -> shell_rewrites s = false ->
   classify_fs f cc pc [py; s] =
   match realpath f (pjoin (cwd_of cc pc) s) with
   | None => PExn
@@ -68,6 +97,7 @@ Print Assumptions C17_env_script_word.
 (* ... so two spellings of the same real file (relative, ./, absolute, through `..`, through a file
    symlink, through a directory symlink) always get the same verdict *)
 Theorem C17_env_spelling_invariance : forall f cc pc py1 py2 s1 s2, is_dash s1 = false -> is_dash s2 = false ->
+  shell_rewrites s1 = false -> shell_rewrites s2 = false ->
   realpath f (pjoin (cwd_of cc pc) s1) = realpath f (pjoin (cwd_of cc pc) s2) ->
   classify_fs f cc pc [py1; s1] = classify_fs f cc pc [py2; s2].
 Proof. exact spelling_invariance. Qed.
@@ -101,6 +131,21 @@ Example ex_env_shadow_at_real_dir :
   classify_fs (ex_fs true) (Some $"/lib") [] [$"python3"; $"x.py"] = PAsk /\
   classify_unresolved (ex_fs true) (Some $"/w") [] [$"python3"; $"x.py"] = PAllow.
 Proof. vm_compute. repeat split. Qed.
+Example ex_env_repaired :
+  classify_fs (ex_fs_nb $"re.py") (Some $"/w") [] [$"python3"; $"x.py"] = PAsk /\
+  classify_fs (ex_fs_nb $"json.pyc") (Some $"/w") [] [$"python3"; $"x.py"] = PAsk /\
+  classify_fs (ex_fs_nb $"datetime.py") (Some $"/w") [] [$"python3"; $"-m"; $"calendar"] = PAsk /\
+  classify_fs (ex_fs_nb $"notes.py") (Some $"/w") [] [$"python3"; $"x.py"] = PAllow /\
+  classify_fs (ex_fs_nb $"re.py.bak") (Some $"/w") [] [$"python3"; $"x.py"] = PAllow /\
+  classify_fs (ex_fs_nb $"notes.py") (Some $"/w") [] [$"python3"; $"~/x.py"] = PAsk /\
+  classify_fs (ex_fs_nb $"notes.py") (Some $"/w") [] [$"python3"; $"-X"; $"pycache_prefix=/c"; $"x.py"] = PAsk.
+Proof. vm_compute. repeat split. Qed.
+(* what the repaired test still cannot name (known finding C17-env-shadow-sysconfigdata): a loaded module whose
+   name is neither an identifier nor in sys.stdlib_module_names *)
+Example ex_env_residual :
+  classify_fs (ex_fs_nb $"_sysconfigdata__linux_x86_64-linux-gnu.py") (Some $"/w") [] [$"python3"; $"x.py"] = PAllow /\
+  module_named $"_sysconfigdata__linux_x86_64-linux-gnu.py" = false.
+Proof. vm_compute. split; reflexivity. Qed.
 Example ex_env_loop_and_missing :
   classify_fs (ex_fs false) (Some $"/w") [] [$"python3"; $"loop.py"] = PExn /\
   realpath (ex_fs false) $"/w/loop.py" = None /\
